@@ -204,8 +204,9 @@ def case_batch_and_guess(ctx):
     d = C.dir_grid(ctx, "nonuniform", nd)
     E = P.nonneg(ctx, "E", (npts, nf, nd), strict=True)
     t = np.array([C.T0, C.T0 + 3600])
-    depth = np.array([np.inf, 30.0])
+    depth = np.array([np.nan, 30.0])     # a missing depth means deep water at this entry point as everywhere else
     s = create_2d_spectrum(f, d, E, t, np.zeros(2), np.zeros(2), depth=depth)
+    depth = np.array([np.inf, 30.0])
     calls = []
     res = ctx.reals("res", (npts, 2))
 
